@@ -23,7 +23,12 @@ RULE = (
     'gap masks, loaded and classified by the real code; grid_time_flags must '
     'equal the reference row for row and the set of interstorm zeta_interval '
     'rows must EQUAL the set of maximal clean rain-free runs of >=2 samples '
-    '(both inclusions).  States = automaton steps (samples).  Non-trivial = '
+    '(both inclusions).  Time steps of one second, one day and two days; '
+    'long records: one storm/rise motif at every position of a quiet '
+    '1100-step record and within 4 steps of every multiple of 500 or 512 of '
+    'an 8300-step record (thorough: every position of it), the long '
+    'recessions before and after it being the interstorm intervals.  '
+    'States = automaton steps (samples).  Non-trivial = '
     'an interstorm interval is recorded / a mask has a True run.')
 ASSUMPTIONS = [
     'reference automaton written from the property statement; increments '
@@ -35,10 +40,12 @@ def BOUND(tier):
     return {
         'quick': 'mask pairs len<=8, vectors len<=14; ternary records n<=4 '
                  '(<=2 gaps) on 4 combos, n=5 (<=1 gap) on 2 combos, n=3 with '
-                 'thresholds 2^-30 and 2^30; CLI n<=3',
+                 'thresholds 2^-30 and 2^30; CLI n<=3; steps 1 s / 1 d / '
+                 '2 d n=3; motif positions in records of 1100 and 8300 steps',
         'thorough': 'mask pairs len<=10, vectors len<=18; ternary n<=5 (all '
                     'gap masks) on 5 combos, n=6 (<=1 gap), n=7 (no gap); '
-                    'CLI n<=4',
+                    'CLI n<=4; steps 1 s / 1 d / 2 d n=4; every motif '
+                    'position in a record of 8300 steps',
     }[tier]
 
 
@@ -106,6 +113,11 @@ def spaces(tier):
         out.append(cs.sequence_space(4, dataset=3))
     for combo in cs.LONGSTEP:
         out.append(cs.db_space(3 if tier == 'quick' else 4, combo, 1))
+    if tier == 'quick':
+        out.append(cs.long_space(1100, cs.COMBOS[2]))
+        out.append(cs.long_space(8300, cs.COMBOS[2], around=(500, 512)))
+    else:
+        out.append(cs.long_space(8300, cs.COMBOS[2]))
     return out
 
 
